@@ -23,8 +23,8 @@ Translation rules (the trusted part; everything else is checked by Lean):
 * comparisons and chains (`0 < e <= t`) -> conjunction of Props; `==`/`!=` -> `=`/`≠`; `x in L` -> `x ∈ L`; inside `filter`
   they are wrapped in `decide`.
 * `[e for v in L if c]` -> `(L.filter (fun v => decide c)).map (fun v => e)` (no `if`: `L.map`), tuple targets `(a, b)` ->
-  `fun ((a, b) : Nat × Nat)`; `D.items()` -> the association list `D : List (Nat × List Nat)`; `D[k]` -> `dictGet D k`
-  (`[]` where the code raises KeyError); `range(n)` -> `List.range n`; `range(a, a + n)` -> `(List.range n).map (a + ·)`;
+  `fun ((a, b) : Nat × Nat)`; `D.items()` -> the association list `D : List (Nat × List Nat)`; `D[k]` / `D.get(k, [])` -> `dictGet D k`
+  (`[]` for a missing key); `range(n)` -> `List.range n`; `range(a, a + n)` -> `(List.range n).map (a + ·)`;
   `list(x)` -> `x`; `x if c else y` -> `if c then x else y`; `[]` -> `[]`.
 * `for v in L: ... if c: self._send_message(v, ..)` -> destinations `L.filter (fun v => decide c)`, in loop order.
 * `enumerate(shares)` where `shares = random_split(field, x, t, m)` -> `List.range m` (one row per party: C12/C13).
@@ -91,6 +91,11 @@ class Tx:
             return self.term(n.args[0])
         if isinstance(n, ast.Subscript) and isinstance(n.value, ast.Name) and self.env.get(n.value.id, '').startswith('DICT:'):
             return f'dictGet {self.env[n.value.id][5:]} {self.atom(n.slice)}'
+        # D.get(k, []): `[]` for a missing key (what dictGet returns)
+        if isinstance(n, ast.Call) and isinstance(n.func, ast.Attribute) and n.func.attr == 'get' and len(n.args) == 2 \
+                and isinstance(n.func.value, ast.Name) and self.env.get(n.func.value.id, '').startswith('DICT:') \
+                and isinstance(n.args[1], ast.List) and not n.args[1].elts:
+            return f'dictGet {self.env[n.func.value.id][5:]} {self.atom(n.args[0])}'
         raise Unsupported(ast.dump(n)[:80])
 
     def atom(self, n):
